@@ -1,0 +1,27 @@
+//go:build verif
+
+package engine
+
+// No-panic sweep (C05): thin safety-only contracts for functions of this package that are not otherwise under contract
+// and contain a type assertion without comma-ok, an integer division or a shift (`govc sweeplist` prints the
+// candidates). Only those panic classes of the function's own body are obligations. Candidates whose assertions need
+// facts established by their callers (KeySort$1, Length$1, NewException, collectionOf$1, exceptionalValue.Error,
+// simplify) are not claimed; they are named in DESIGN.md 5 C05.
+
+//@ func Retract
+//@   property C05
+//@   safety only tassert
+//@   checks only tassert
+//@   trusted-frame
+
+//@ func intPow
+//@   property C05
+//@   safety only shift
+//@   checks only shift
+//@   trusted-frame
+
+//@ func writeCompoundNumberVars
+//@   property C05
+//@   safety only div0
+//@   checks only div0
+//@   trusted-frame
